@@ -189,7 +189,9 @@ impl TplLitType {
                         TplLitTypeItem::StringConst(v) => v
                             .replace('\\', "\\\\")
                             .replace('`', "\\`")
-                            .replace("${", "\\${"),
+                            .replace("${", "\\${")
+                            // (a raw carriage return would be read back as a line feed)
+                            .replace('\r', "\\r"),
                         TplLitTypeItem::OneOf(values) => {
                             let mut values = values.iter().collect::<Vec<_>>();
                             values.sort();
